@@ -194,6 +194,22 @@ def impl(case):
             out['lumped']['flip_ok'] = bool(np.array_equal(flipped, ref) and np.array_equal(back, base0) and rewrap_ok)
         except Exception as exc:  # noqa
             out['lumped']['flip_ok'] = None
+        # the same lumped data with the MICRO trajectories in every integer width that holds them, macro labels beyond
+        # the narrow types (7 / 300 / 70000): assignment, states and both kinds of trajectories as for int64
+        wide = {v: (7 if i < len(present) // 2 else (300 if i % 2 else 70000)) for i, v in enumerate(present)}
+
+        def lump_view(dt):
+            try:
+                l2 = mh.LumpedStateTraj([np.array([wide[v] for v in t]) for t in trajs], [np.array(t, dtype=dt) for t in trajs])
+                return {'assign': [int(x) for x in l2.state_assignment], 'states': [int(x) for x in l2.states],
+                        'trajs': [[int(x) for x in t] for t in l2.trajs], 'micro': [[int(x) for x in t] for t in l2.microstate_trajs]}
+            except Exception as exc:  # noqa
+                return {'err': type(exc).__name__}
+        ref_view = lump_view(np.int64)
+        lo_, hi_ = present[0], present[-1]
+        out['lumped']['widths'] = {name: lump_view(dt) == ref_view for name, dt, a_, b_ in (
+            ('int8', np.int8, -128, 127), ('int16', np.int16, -32768, 32767), ('int32', np.int32, -2**31, 2**31 - 1),
+            ('uint8', np.uint8, 0, 255), ('uint16', np.uint16, 0, 65535)) if a_ <= lo_ and hi_ <= b_}
         try:
             T, _ = lt.estimate_markov_model(lag)
             ev = mh.msm.utils.linalg.left_eigenvalues(T, nvals=T.shape[0])
@@ -250,6 +266,11 @@ def judge(case, ibc, answers):
         lu = r.get('lumped')
         if lu and lu.get('flip_ok') is False:
             P('impl-vs-spec', 'LumpedStateTraj: after flipping `positive` on the object it does not answer like a fresh object with that flag')
+        for wname, same in sorted((lu or {}).get('widths', {}).items()):
+            if not same:
+                P('impl-vs-spec', 'LumpedStateTraj with %s microstate trajectories (macro labels 7 / 300 / 70000): assignment, states or trajectories '
+                  'differ from the same data held as int64' % wname)
+                break
         if lu and lu['emm'] != lu['emm_method']:
             P('impl-vs-spec', 'LumpedStateTraj: function API %s and method %s differ' % (C.short(lu['emm'], 120), C.short(lu['emm_method'], 120)))
         if lu and 'err' not in lu['its'] and lu.get('its_ref') not in (None, 'err') and 'err' not in lu['emm_method']:
